@@ -447,7 +447,7 @@ func (c *Conn) handle(rawHdr, rawBody []byte) {
 				cl.mu.Lock()
 				missing := cl.MissingKeyspaces[canon]
 				cl.mu.Unlock()
-				if missing {
+				if missing || canon == "" { // Cassandra rejects the empty keyspace name
 					_ = c.Send(header.Version, header.StreamId, &message.Invalid{ErrorMessage: fmt.Sprintf("Keyspace '%s' does not exist", canon)})
 				} else {
 					c.mu.Lock()
